@@ -420,7 +420,13 @@ const char * etcLdSoPreload_findNonCommentLineContainingString (const char * con
             lineStartPtr++;
         }
 
-        if (*lineStartPtr != '#') {
+        // For the dynamic loader a '#' starts a comment wherever it stands, so a comment line may be indented
+        const char * firstNonBlankPtr = lineStartPtr;
+        while ((*firstNonBlankPtr == ' ') || (*firstNonBlankPtr == '\t')) {
+            firstNonBlankPtr++;
+        }
+
+        if (*firstNonBlankPtr != '#') {
             // This is not a commented-out line, therefore a valid search string has been found
             return lineStartPtr;
         }
